@@ -688,6 +688,13 @@ def generate_addresses(ctx):
         chg, idx = rng.randrange(2), rng.choice([0, 1, HARD - 1, rng.randrange(HARD), 2**32 - 1, HARD])
         for op in (0, 1, 2):
             ctx.run("ada_shelley_wallet", [scheme, seed, net, acc, chg, idx, op], "wallet-%d" % scheme)
+    # several accounts of ONE wallet in one process (a staking key cached per wallet instead of per account shows here)
+    for scheme in (0, 1):
+        seed, net = rb(rng, 32), rng.randrange(2)
+        for acc in (0, 1, 2, 5, 1, 0):
+            for op in (0, 1, 2):
+                ctx.run("ada_shelley_wallet", [scheme, seed, net, acc, rng.randrange(2), rng.choice([0, 1, 17]), op],
+                        "wallet-accounts-%d" % scheme)
     for bad_acc in (-1, 2**32, 2**32 - 1, HARD):
         ctx.run("ada_shelley_wallet", [0, rb(rng, 32), 0, bad_acc, 0, 0, 0], "bad-account")
     for bad_idx in (-1, 2**32):
